@@ -112,6 +112,19 @@ def _tu_key(src, flags, inc):
     return h.hexdigest()[:24]
 
 
+def repo_objects(kind="san", repo=None):
+    """(compiler flags, include flags, object files of `repo`'s own sources) after making sure they are built — for small
+    generated programs that need the library linked in (translator probes)"""
+    repo = repo or REPO
+    build_harness(kind, repo, tag="ref" if os.path.realpath(repo) != os.path.realpath(REPO) else "cur")
+    flags = CXXFLAGS_SAN if kind == "san" else CXXFLAGS_FAST
+    hsrc = os.path.join(VERIF, "harness")
+    inc = ["-I" + os.path.join(repo, "include"), "-I" + os.path.join(repo, "external"), "-I" + hsrc]
+    srcs = [os.path.join(repo, "src", f) for f in sorted(os.listdir(os.path.join(repo, "src"))) if f.endswith(".cpp")]
+    objs = [os.path.join(CACHE, "obj", f"{os.path.basename(s_)[:-4]}-{kind}-{_tu_key(s_, flags, inc)}.o") for s_ in srcs]
+    return flags, inc, objs
+
+
 def build_harness(kind="san", repo=None, tag="cur"):
     """Compile the sources of `repo` with -DNIFLY_VERIF and link them with harness/*.cpp.
     Objects are cached per translation unit by the content hash of the source and all headers it
